@@ -226,3 +226,20 @@ package engine
 //@ requires runHandle.providerErr != nil && runHandle.aggregatorErr != nil && runHandle.startRes != nil && runHandle.runRes != nil && !closed(runHandle.runRes)
 //@ modifies ev(spawn)
 //@ ensures [await-goroutine-started] ev(spawn) == old(ev(spawn)) + 1 && !closed(result)
+
+// The three tasks of a pool run: provider and aggregator live as long as the run (not merely as long as instances are
+// being started), and the outcome of each is handed to the awaiting goroutine.
+//@ func (p *instancePool) runAsync#lit0
+//@ props C05 C08
+//@ at call p.Provider.Run assert [provider-lives-as-long-as-the-run] arg(ctx) == runCtx
+//@ at send providerErr assert [its-outcome-is-awaited] value == result_of(p.Provider.Run, 0)
+
+//@ func (p *instancePool) runAsync#lit1
+//@ props C05 C06
+//@ at call p.Aggregator.Run assert [aggregator-lives-as-long-as-the-run] arg(ctx) == runCtx
+//@ at send aggregatorErr assert [its-outcome-is-awaited] value == result_of(p.Aggregator.Run, 0)
+
+//@ func (p *instancePool) runAsync#lit2
+//@ props C05 C12
+//@ at call p.startInstances assert [start-and-run-contexts] arg(startCtx) == instanceStartCtx && arg(runCtx) == runCtx && arg(runRes) == runRes && arg(newInstanceSchedule) == newInstanceSchedule
+//@ at send startRes assert [its-outcome-is-awaited] value.Started == result_of(p.startInstances, 0) && value.Err == result_of(p.startInstances, 1)
